@@ -873,6 +873,7 @@ void BW_MidiSequencer::buildTimeLine(const std::vector<MidiEvent> &tempos,
 #endif
             MidiTrackRow &pos = *it;
             if((posPrev != &pos) && // Skip first event
+               (posPrev->delay > 0) && // No time passes after a row whose delay was dropped (silence before a lone end of track)
                (!tempos.empty()) && // Only when in-track tempo events are available
                (tempo_change_index < tempos.size())
               )
